@@ -746,17 +746,6 @@ func runAgent(tg *target, c *Case, mode string) (o RunObs) {
 			o.Mutated = true
 		}
 	}
-	// position of a call in the k-th scripted reply
-	pos := func(r int, x TCall) int {
-		if r >= 0 && r < len(c.Script) {
-			for i, cl := range c.Script[r].Calls {
-				if cl == x {
-					return i
-				}
-			}
-		}
-		return 1 << 20
-	}
 	// tool executions grouped by round, in the order of the calls of that round's assistant message
 	byRound := map[int][]TCall{}
 	var rounds []int
@@ -775,9 +764,32 @@ func runAgent(tg *target, c *Case, mode string) (o RunObs) {
 	}
 	sort.Ints(rounds)
 	for _, r := range rounds {
+		// every execution takes the first not yet taken equal call of the r-th scripted reply (the
+		// calls of one message may be equal: same id, tool and arguments)
 		xs := byRound[r]
-		sort.SliceStable(xs, func(i, j int) bool { return pos(r, xs[i]) < pos(r, xs[j]) })
-		o.Rounds = append(o.Rounds, xs)
+		keys := make([]int, len(xs))
+		used := map[int]bool{}
+		for xi, x := range xs {
+			keys[xi] = 1 << 20
+			if r >= 0 && r < len(c.Script) {
+				for i, cl := range c.Script[r].Calls {
+					if !used[i] && cl == x {
+						keys[xi], used[i] = i, true
+						break
+					}
+				}
+			}
+		}
+		idx := make([]int, len(xs))
+		for xi := range idx {
+			idx[xi] = xi
+		}
+		sort.SliceStable(idx, func(i, j int) bool { return keys[idx[i]] < keys[idx[j]] })
+		ordered := make([]TCall, len(xs))
+		for xi, from := range idx {
+			ordered[xi] = xs[from]
+		}
+		o.Rounds = append(o.Rounds, ordered)
 	}
 	// the messages of the future: the tools of a round finish in any order, so every maximal run
 	// of tool messages is put in the order of the calls of the assistant message before it; the
@@ -800,15 +812,35 @@ func runAgent(tg *target, c *Case, mode string) (o RunObs) {
 			if len(outE) > 0 {
 				calls = outE[len(outE)-1].Calls
 			}
-			p := func(m Msg) int {
-				for k, cl := range calls {
-					if cl.ID == m.TCID {
-						return k
+			// position of the call a tool message answers: by id, and - the ids of one message may
+			// repeat or be empty - by the content that call's tool produces
+			used := map[int]bool{}
+			keys := make([]int, len(grp))
+			for gi, m := range grp {
+				keys[gi] = 1 << 20
+				for pass := 0; pass < 2 && keys[gi] == 1<<20; pass++ {
+					for k, cl := range calls {
+						if used[k] || cl.ID != m.TCID {
+							continue
+						}
+						if pass == 0 && strings.Join(c.toolChunks(cl.Name, cl.Args), "") != m.Content {
+							continue
+						}
+						keys[gi], used[k] = k, true
+						break
 					}
 				}
-				return 1 << 20
 			}
-			sort.SliceStable(grp, func(a, b int) bool { return p(grp[a]) < p(grp[b]) })
+			idx := make([]int, len(grp))
+			for gi := range idx {
+				idx[gi] = gi
+			}
+			sort.SliceStable(idx, func(a, b int) bool { return keys[idx[a]] < keys[idx[b]] })
+			sorted := make([]Msg, len(grp))
+			for gi, from := range idx {
+				sorted[gi] = grp[from]
+			}
+			grp = sorted
 			if !(j == len(emits) && o.Out.Class == "err" && o.Out.Err == 3) {
 				outE = append(outE, grp...)
 			}
@@ -957,27 +989,20 @@ func (c *Case) specRunWith(stopAt int, callOpts bool) (o RunObs) {
 				}
 			}
 		}
-		rdID := "" // getReturnDirectlyToolCallID: the id of the first call to a return-directly tool
-		if len(c.RD) > 0 {
-			for _, cl := range st.Calls {
-				if c.inRD(cl.Name) {
-					rdID = cl.ID
-					break
-				}
+		rdPos := -1 // the first call to a return-directly tool: its result is the answer (whatever the ids of the calls are)
+		for i, cl := range st.Calls {
+			if c.inRD(cl.Name) {
+				rdPos = i
+				break
 			}
 		}
-		if rdID != "" {
+		if rdPos >= 0 {
 			if budget == 0 {
 				return fail(1)
 			}
-			for _, r := range results {
-				if r.TCID == rdID {
-					r := r
-					o.Out = Out{Class: "final", Msg: &r}
-					return o
-				}
-			}
-			return fail(3)
+			r := results[rdPos]
+			o.Out = Out{Class: "final", Msg: &r}
+			return o
 		}
 		hist = append(hist, am)
 		hist = append(hist, results...)
@@ -1440,6 +1465,10 @@ func genCase(r *lib.Rng, tier string) *Case {
 		L = r.Range(7, 8) // long enough to exceed the default limit
 	}
 	unknown := r.Chance(1, 12)
+	idMode := 0 // tool-call ids: unique (mostly), all empty, or derived from the tool name
+	if r.Chance(1, 6) {
+		idMode = r.Range(1, 2)
+	}
 	order := r.Intn(3)
 	if c.Checker == "default" && order == 1 && !r.Chance(1, 12) {
 		order = []int{0, 2}[r.Intn(2)] // content before the tool call with the default checker: the known finding, kept rare
@@ -1454,6 +1483,12 @@ func genCase(r *lib.Rng, tier string) *Case {
 			nc := r.Range(1, 4)
 			for i := 0; i < nc; i++ {
 				cl := TCall{ID: fmt.Sprintf("k%d_%d", k, i), Name: c.Tools[r.Intn(nt)].Name, Args: r.Pick(argPool)}
+				switch idMode {
+				case 1: // a model that gives its tool calls no id
+					cl.ID = ""
+				case 2: // a provider that derives the id from the function name: repeated within a message
+					cl.ID = "call_" + cl.Name
+				}
 				if len(outArgs) > 0 && r.Chance(1, 2) {
 					cl.Args = r.Pick(outArgs)
 				}
@@ -1704,6 +1739,20 @@ func (engine) Run(ci any) lib.Result {
 	if gen.Out.Class == "final" && gen.Out.Msg.Content == "" {
 		res.Tags = append(res.Tags, "generate:empty-answer")
 	}
+	idTag := "unique"
+	for _, st := range c.Script {
+		seen := map[string]bool{}
+		for _, cl := range st.Calls {
+			switch {
+			case cl.ID == "":
+				idTag = "empty"
+			case seen[cl.ID] && idTag != "empty":
+				idTag = "repeated-in-a-message"
+			}
+			seen[cl.ID] = true
+		}
+	}
+	res.Tags = append(res.Tags, "tool-call-ids:"+idTag)
 	innerEmpty := false
 	for _, st := range c.Script {
 		for i, ch := range st.Chunks {
